@@ -28,9 +28,11 @@ def run(prop, cfg, seed):
             v.update({"property": prop, "obligation": ["executable twin disagrees with the real code (bounded sweep)"]})
             json.dump(v, open(rp, "w"), indent=1)
             violations.append((twin, rp))
-    try:
-        from . import kani
-        report["kani"] = kani.run(prop, cfg)
-    except ImportError:
-        pass
+    from . import kani
+    report["kani"] = kani.run(prop, cfg)
+    for k in report["kani"]:
+        if k.get("harness") == "summary" and (k.get("failures") or k.get("verified") is None):
+            undecided.append("Kani cross-check of the trusted apint contracts did not succeed: %s" % k)
+        if k.get("result") in ("FAILED", "timeout"):
+            undecided.append("Kani harness %s: %s (trusted shim contract refuted or not decided)" % (k["harness"], k["result"]))
     return {"report": report, "violations": violations, "undecided": undecided}
